@@ -303,23 +303,39 @@ class Reporter:
                     written.append((kind, key, detail, path))
             # confirm in a brand-new interpreter before reporting (first of each kind)
             if replay_fn is not None and not os.environ.get("VERIF_NO_CONFIRM"):
-                confirmed_kinds = set()
-                for kind, key, detail, path in written:
-                    if kind in confirmed_kinds:
-                        continue
-                    confirmed_kinds.add(kind)
-                    p = subprocess.run(
-                        [str(VERIF / "check"), self.pid, "--replay", str(path)],
-                        capture_output=True,
-                        text=True,
-                        timeout=900,
-                    )
-                    if p.returncode != 1:
-                        print(p.stdout[-3000:], p.stderr[-3000:], file=sys.stderr)
-                        raise HarnessError(
-                            f"violation {kind} {key} did not reproduce in a fresh "
-                            f"interpreter (replay exit {p.returncode}); not reported"
+                # every failure kind must reproduce in a brand-new interpreter before it is
+                # reported.  A witness may depend on what the same worker did before it (a
+                # memo, an intern table), which a single-case replay cannot show, so up to
+                # five witnesses of the kind are tried and the first that reproduces is
+                # listed first; witnesses that did not reproduce are dropped from the report.
+                by_kind = {}
+                for item in written:
+                    by_kind.setdefault(item[0], []).append(item)
+                written = []
+                for kind, items in by_kind.items():
+                    confirmed = None
+                    failed = []
+                    last = None
+                    for item in items[:5]:
+                        p = subprocess.run(
+                            [str(VERIF / "check"), self.pid, "--replay", str(item[3])],
+                            capture_output=True,
+                            text=True,
+                            timeout=900,
                         )
+                        last = p
+                        if p.returncode == 1:
+                            confirmed = item
+                            break
+                        failed.append(item)
+                    if confirmed is None:
+                        print(last.stdout[-3000:], last.stderr[-3000:], file=sys.stderr)
+                        raise HarnessError(
+                            f"violation {kind} {items[0][1]} did not reproduce in a fresh "
+                            f"interpreter (replay exit {last.returncode}, {len(items[:5])} witness(es) tried); not reported"
+                        )
+                    written.append(confirmed)
+                    written += [it for it in items if it is not confirmed and it not in failed]
             for kind, key, detail, path in written:
                 print(f"VIOLATION property={self.pid} replay={path}", flush=True)
                 print(f"  kind={kind} key={key}\n  {detail}", flush=True)
